@@ -5,14 +5,43 @@ import (
 	"sort"
 )
 
-// SortedKeys returns the keys of m in ascending order. The transformer rewrites `range` over maps with
-// ordered keys to iterate in this order: Go's randomised map iteration is a source of nondeterminism the
-// scheduler cannot replay.
+// PermuteMaps: iteration order over a map is an environment choice (see SortedKeys). Scenarios whose property
+// cannot depend on it switch it off to keep their schedule space small.
+var PermuteMaps = true
+
+// SortedKeys returns the keys of m in the order in which a `range` over m visits them in this execution. The
+// transformer rewrites `range` over maps with ordered keys to iterate over this slice: Go's randomised map
+// iteration is nondeterminism the scheduler has to own. The default order is ascending; every other order
+// (all permutations up to 4 keys, all rotations of the ascending order beyond that) is an alternative answer
+// of a choice point, so a property that only breaks for some iteration order is still found within the bound.
 func SortedKeys[M ~map[K]V, K cmp.Ordered, V any](m M) []K {
 	keys := make([]K, 0, len(m))
 	for k := range m {
 		keys = append(keys, k)
 	}
 	sort.Slice(keys, func(i, j int) bool { return keys[i] < keys[j] })
-	return keys
+	n := len(keys)
+	if n < 2 || !PermuteMaps {
+		return keys
+	}
+	if n <= 4 {
+		f := 1
+		for i := 2; i <= n; i++ {
+			f *= i
+		}
+		c := Choose("map-order", f)
+		// c-th permutation in lexicographic order (factorial number system)
+		rest := append([]K(nil), keys...)
+		out := make([]K, 0, n)
+		for i := n; i >= 1; i-- {
+			f /= i
+			j := c / f
+			c %= f
+			out = append(out, rest[j])
+			rest = append(rest[:j], rest[j+1:]...)
+		}
+		return out
+	}
+	c := Choose("map-order", n)
+	return append(append([]K(nil), keys[c:]...), keys[:c]...)
 }
